@@ -24,7 +24,7 @@ Ltac life_tac :=
   repeat match goal with H : ?s ?i = _ |- context [?s ?i] => rewrite H end;
   try reflexivity.
 
-Ltac crunch := cbv beta iota zeta delta -[upd aupd N.eqb sim N.ltb N.leb].
+Ltac crunch := cbv beta iota zeta delta -[upd aupd N.eqb sim N.ltb N.leb pkey].
 
 Ltac finish_step Hs :=
   try match goal with c : cmpop |- _ => destruct c end;
